@@ -15,7 +15,11 @@ from pv.gen import grammars as G
 from pv.ref.meta_literal import META
 
 IDENT_POOL = ["a", "b", "r_1", "_x", "x9", "DROP", "POP", "PEEK", "ANY", "EOI", "SOI", "ASCII_DIGIT", "PEEK_ALL", "POP_ALL", "NEWLINE", "LETTER", "POPPY", "PEEKER", "DROPS", "PUSH_x", "A", "zZ"]
-RULE_NAME_POOL = ["a", "b", "r_1", "_x", "x9", "rule", "WHITESPACE", "COMMENT", "A", "zZ", "POPPY", "q"]
+RULE_NAME_POOL = [
+    "a", "b", "r_1", "_x", "x9", "rule", "WHITESPACE", "COMMENT", "A", "zZ", "POPPY", "q",
+    # identifiers that start or end like a keyword or a built-in: the scanner must take the longest identifier
+    "PUSHx", "PEEK_ALL2", "POP_", "DROPS", "PEEK_", "PUSH_LITERALLY", "ANYTHING", "SOI2", "EOI_", "ASCII_DIGITS", "NEWLINE_", "peek", "push", "_", "__", "e", "xPOP", "a_PEEK",
+]
 STR_POOL = ["s", "", "a b", "\\n", "\\x41", "\\u{01F600}", "\\u{41}", "\\\"", "\\\\", "é", "\\0", "\\'", "\\u{123}", "\\t\\r", "//", "/*", "'", "{", "\\u{10FFFF}", "\\x7f", "\n", "#", "\\u{7ff}"]
 CHR_POOL = ["a", "z", "\\x41", "\\u{5A}", "\\'", "\\\\", '"', "é", "\\n", "\\r", "\\t", "\\0", "'", "\\u{1F600}", "0", " ", "\\\"", "\\"]
 TRIVIA = ["", "", " ", " ", "  ", "\n", "\t", " /* c */ ", " // c\n", "\r\n", "/* /* n */ */", "\n\n", " /**/ "]
